@@ -13,15 +13,16 @@
                                           handleSubscriberTerminate (IT)
    Definitions only; proofs are in Proofs.v.
 
-   Two variants: [Defective] is what the code does today; [Repaired] differs in exactly five places
-   (marked R1..R5 below) and is the behaviour for which the property theorems are proved.
+   Variants are records of defect flags: [Repaired] has none and is the behaviour for which the property theorems
+   are proved; [Head] is what /repo HEAD implements (four findings still open); [Defective] has every defect ever
+   recorded (the tree before any fix) and is kept for the historical refutation witnesses only.
    Choices Go leaves open (which free address Allocate returns, Go map iteration order in the containment
    walks) are modelled as a list of candidate successor states; the driver follows the candidate that the
    implementation took. *)
 From OV Require Import Common.Base.
 Open Scope N_scope.
 
-(* which of today's defects a variant reproduces; Repaired = none, Defective = all (the code today).
+(* which recorded defects a variant reproduces; Repaired = none, Defective = all (the tree before any fix).
    Intermediate combinations exist so that the check keeps working while fixes are applied one by one. *)
 Record variant := mkV {
   d1 : bool;   (* startNCP falls back to the constant 100.64.0.1 *)
@@ -38,8 +39,10 @@ Record variant := mkV {
                   forwardLatePendingPackets without handleAck, so the session does not record the address *)
 }.
 Definition Repaired : variant := mkV false false false false false false false false false.
-(* the code at /repo HEAD: constant fall-back (1), expiry take-over (3), pending ACK (6), nil pool (7) are fixed *)
-Definition Head : variant := mkV false true false true true false true true false.
+(* the code at /repo HEAD.  Fixed there (flag off): constant fall-back d1 (24c9504), expiry take-over d3 (58e16d0),
+   unresolved answer d4 (d5fadd1), pending ACK d6 (b04c868), nil pool d7 (d114f02).  Still present: unchecked release
+   d2, untracked out-of-pool statics d5, restore keeps a conflicting address d8, VRF-blind walk / override d9. *)
+Definition Head : variant := mkV false true false false true false true true false.
 Definition Defective : variant := mkV true true true true true true true true true.
 Inductive fam := F4 | F6 | FD.
 Definition fam_eqb (a b : fam) : bool :=
@@ -502,17 +505,27 @@ Definition pa_pd (v : variant) (spd : option item) (vrf sid : N) (r2 : reg) : li
   end.
 Definition step_pa (v : variant) (st : state) (s : sess) (vrf : N) (s4 s6 : option N) (spd : option item)
            (o4 o6 od : option N) : list (state * out) :=
+  (* the same code runs at the first authentication and at every RE-authentication after an LCP renegotiation
+     (onLCPDown, then onAuthResult again): extractIPFromAttributes overwrites an address only when AAA supplies
+     one, the allocation context is rebuilt from the new answer, startNCP reserves what the session already has
+     (or allocates when it has nothing), and the pool names recorded at allocation time (allocatedPool,
+     allocatedIANAPool) stay unless a new allocation replaces them. *)
   let ov4 := match s_prof4 s with Some _ => o4 | None => None end in
   let ov6 := match s_prof6 s with Some _ => o6 | None => None end in
-  bindl (acquire v F4 (s_prof4 s) ov4 vrf (s_id s) (oitem s4) (st_reg st)) (fun c4 =>
+  let cur4 := match s4 with Some _ => s4 | None => s_a4 s end in
+  let cur6 := match s6 with Some _ => s6 | None => s_a6 s end in
+  let curd := match spd with Some _ => spd | None => s_ad s end in
+  bindl (acquire v F4 (s_prof4 s) ov4 vrf (s_id s) (oitem cur4) (st_reg st)) (fun c4 =>
     match c4 with (r1, a4, p4, ok4) =>
     (* reservation conflict: s.IPv4Address = nil *)
-    bindl (acquire v F6 (s_prof6 s) ov6 vrf (s_id s) (oitem s6) r1) (fun c6 =>
+    bindl (acquire v F6 (s_prof6 s) ov6 vrf (s_id s) (oitem cur6) r1) (fun c6 =>
       match c6 with (r2, a6, p6, ok6) =>
       map (fun cd : reg * option item =>
         let a4' := pa_addr v (okopt ok4 a4) in
-        (mkState (fst cd) (put_sess (pa_sess s vrf ov4 ov6 a4' (okopt ok6 a6) (snd cd) p4 p6) (st_sess st)) (st_prov st),
-         OPa (oaddr a4') (oaddr (okopt ok6 a6)) (snd cd) p4 p6 (oaddr a4'))) (pa_pd v spd vrf (s_id s) r2)
+        let p4' := match p4 with Some _ => p4 | None => s_p4 s end in
+        let p6' := match p6 with Some _ => p6 | None => s_p6 s end in
+        (mkState (fst cd) (put_sess (pa_sess s vrf ov4 ov6 a4' (okopt ok6 a6) (snd cd) p4' p6') (st_sess st)) (st_prov st),
+         OPa (oaddr a4') (oaddr (okopt ok6 a6)) (snd cd) p4' p6' (oaddr a4'))) (pa_pd v curd vrf (s_id s) r2)
       end)
     end).
 
@@ -803,7 +816,7 @@ Definition step (v : variant) (st : state) (o : op) : list (state * out) :=
   match o with
   | PA sid vrf s4 s6 spd o4 o6 od =>
       match find_sess sid st with
-      | Some s => if s_ppp s && s_live s && negb (s_started s) then step_pa v st s vrf s4 s6 spd o4 o6 od else skip st
+      | Some s => if s_ppp s && s_live s then step_pa v st s vrf s4 s6 spd o4 o6 od else skip st
       | None => skip st
       end
   | PI sid a =>
